@@ -144,6 +144,10 @@ var frags = []*Frag{
 		{ID: "{P}cv", Body: "    runs-on: ubuntu-latest\n    steps:\n      - run: echo ${{ vars.FOO }} ${{ vars.NOPE }} ${{ vars.nada }}\n"},
 	}},
 	{Name: "runner-conflict", Tie: true, Jobs: []FragJob{{ID: "{P}rc", Body: "    runs-on: [ubuntu-latest, macos-latest, windows-latest]\n    steps:\n      - run: echo\n"}}},
+	{Name: "runner-conflict-two-candidates", Tie: true, Jobs: []FragJob{
+		{ID: "{P}rc2", Body: "    runs-on: [self-hosted, linux, ubuntu-latest, windows-latest]\n    steps:\n      - run: echo\n"},
+		{ID: "{P}rc3", Body: "    runs-on: [self-hosted, macos, macos-14, x64, ubuntu-22.04]\n    steps:\n      - run: echo\n"},
+	}},
 	{Name: "shell-names", Jobs: []FragJob{{ID: "{P}sh", Body: "    runs-on: ubuntu-latest\n    defaults:\n      run:\n        shell: zsh\n    steps:\n      - run: echo\n        shell: fish\n      - run: echo\n        shell: bash -e {0}\n"}}},
 	{Name: "popular-action-inputs", Jobs: []FragJob{{ID: "{P}pa", Body: "    runs-on: ubuntu-latest\n    steps:\n      - uses: actions/checkout@v4\n        with:\n          fetch-depth: 0\n          bogus: 1\n      - uses: actions/setup-node@v4\n        with:\n          node-version: 20\n      - uses: actions/upload-artifact@v4\n"}}},
 	{Name: "popular-missing-two", Tie: true, Jobs: []FragJob{{ID: "{P}pm", Body: "    runs-on: ubuntu-latest\n    steps:\n      - uses: actions/cache@v4\n      - uses: actions/cache@v4\n        with:\n          unknown1: a\n          unknown2: b\n"}}},
